@@ -134,6 +134,7 @@ SIM = {
             {"module": "MC_SimMatch", "constants": MATCH_PLACE_Q, "invariants": C05_INV, "must_reach": ["Reach_FokFilled", "Reach_Resting"]},
             {"module": "MC_SimMatch", "constants": MATCH_PLACE_T, "invariants": C05_INV, "tier": "thorough"},
         ] + simrun_designs(["Inv_C05_FokNeverRests", "Inv_C04_Conserved"]),
+        "extra": ["place_grid"],
         "profiles": MATCH_PROFILES,
         "n_quick": 210, "n_thorough": 6000,
         "rule": "design: every book (<=2 levels/side over 3 prices x 3 sizes) x every limit order flavour; real code: seeded random books/orders through the real stack, each placement's fragments judged against the book the placement executed against",
@@ -146,6 +147,7 @@ SIM = {
             {"module": "MC_SimMatch", "constants": MATCH_GROUP_Q, "invariants": ["Inv_C06_Group"], "must_reach": ["Reach_GroupTwoFilled"]},
             {"module": "MC_SimMatch", "constants": MATCH_GROUP_T, "invariants": ["Inv_C06_Group"], "tier": "thorough", "timeout": 1500},
         ],
+        "extra": ["place_grid"],
         "profiles": MATCH_PROFILES,
         "n_quick": 210, "n_thorough": 6000,
         "rule": "design: all traded ladders over 3 prices x {0,2,4} for two rounds on a lone order after every placement and on every group of <=2 (thorough: 3) resting orders; real code: fills judged per update against a ledger of traded volume rebuilt from the raw scenario lines",
@@ -178,7 +180,7 @@ SIM = {
                      "invariants": ["Inv_SideSymmetry", "Inv_ZeroIfUnmatchedOrRemoved", "Inv_LoserLosesStake", "Inv_WinnerAtLeastLoser", "Inv_DeadHeatReduces", "Inv_LineEvenMoney"]}],
         "profiles": [{"p_close": 1.0, "p_full_match": 0.3, "p_trade": 0.9, "p_removal": 0.08, "p_sp_order": 0.2, "p_inplay": 0.2, "center": (20, 200), "sizes": [2.0, 3.0, 0.5, 10.0, 2.36, 25.0]},
                      {"p_close": 1.0, "p_trade": 0.9, "n_strategies": (2, 2), "market_types": ["WIN", "EACH_WAY", "EACH_WAY", "PLACE"], "center": (20, 160)}],
-        "extra": "settlement",
+        "extra": ["settlement", "handicap_lines"],
         "n_quick": 160, "n_thorough": 5000,
         "rule": "settlement rules (Settlement.tla, integer arithmetic) vs order.profit after the real close: an enumerated family (market type x results incl. dead heats x prices x sizes, paired back/lay with identical fills, line results below/equal/above) plus random runs with real fills, removals and SP",
         "assumptions": ASSUME_SIM + ["tolerance 0.005 x size matched (x(1+1/divisor) for each-way) + 0.01: the code settles on the 2-dp average price", "dead heats in each-way and multi-winner markets are outside the statement (one-winner markets only)", "prices <= 50.0 and sizes <= 50.00 so that all products stay below 2^31"],
@@ -190,7 +192,7 @@ SIM = {
                     {"module": "MC_Closure", "constants": {"Markets": '{"m1", "m2"}', "Strategies": '{"A", "B", "C"}', "Subscribed": "<- SubDef", "Clients": '{"c1", "c2"}', "Live": "TRUE", "MaxSteps": "6"},
                      "invariants": ["Inv_CallbackOncePerClosingUpdate", "Inv_ReopenResetsFlags", "Inv_LiveRemovesOnlyAfterHour", "Inv_RemovedStateReleased"], "must_reach": ["Reach_Removed"]}],
         "profiles": [{"p_close": 1.0, "n_markets": (1, 2), "n_updates": (3, 8)}],
-        "extra": "closure",
+        "extra": ["closure", "handicap_lines"],
         "n_quick": 80, "n_thorough": 2000,
         "rule": "closing-update patterns (repeated CLOSED, close-data-close, first update CLOSED, two markets in either order, strategies subscribed / not subscribed / empty filter, two clients) through the real simulation; callbacks, cleared events and released state counted per closing update",
         "assumptions": ASSUME_SIM + ["cleared-orders / cleared-market events are counted per closing update processed (reading decision, DESIGN.md section 5)", "the live half (closure through the handler queue, removal after an hour) is decided by the live driver (checks/livecheck.py)"],
